@@ -35,6 +35,7 @@ type zzSchema struct {
 	Format     string      // "uint64": a string-formatted unsigned integer
 	Addl       *zzSchema   // additionalProperties: <schema> (map part of an object)
 	OneOf      []*zzSchema // sum type: exactly one variant must match (distinct JSON types, or objects each with a required member of its own; the builder also merges two object variants)
+	Disc       string      // sum with an explicit discriminator: the property name (every variant declares it as a required one-value enum)
 	MinProps   *int        // minProperties / maxProperties (map schemas)
 	MaxProps   *int
 }
@@ -192,7 +193,7 @@ func (b *builder) value(s *zzSchema, wrongType bool) aval {
 				allObj = false
 			}
 		}
-		if !allObj || wrongType {
+		if !allObj || wrongType || s.Disc != "" {
 			return b.value(s.OneOf[b.p.next(n)], wrongType)
 		}
 		k := b.p.next(n + 1)
@@ -554,7 +555,7 @@ func foreignMemberName(s *zzSchema, v aval) bool {
 		s = zzSchemas[s.Ref-1]
 	}
 	if len(s.OneOf) > 0 {
-		if v.kind != kObj {
+		if v.kind != kObj || s.Disc != "" { // explicit discriminator: no inference by member names
 			return false
 		}
 		hit := 0
